@@ -117,6 +117,7 @@ def task_bif(task):
         except BaseException as e:  # noqa
             res["accept"] = False
             res["exc"] = _exc(e)
+            res["tb"] = traceback.format_exc()[-700:]
             return res
         res["accept"] = True
         res["tolerance"] = repr(net.cpt_tolerance)
